@@ -163,21 +163,30 @@ class ReservoirSampler(SamplingSketch[T]):
         if combined_total == 0:
             return
 
-        # Create new reservoir by weighted sampling
+        # Create new reservoir by weighted sampling WITHOUT replacement: each
+        # slot picks a source with probability proportional to the number of
+        # not-yet-drawn stream items it represents, then removes one random item
+        # from that source's sample.  (Sampling with replacement would duplicate
+        # some stream items and lose others, e.g. when both reservoirs are
+        # under-full and every item must be kept.)
         new_reservoir: list[T] = []
+        self_pool = list(self._reservoir)
+        other_pool = list(other._reservoir)
+        self_remaining = self._total_count
+        other_remaining = other._total_count
 
         for _i in range(min(self._size, combined_total)):
             # Decide which reservoir to sample from
-            if self._rng.random() < self._total_count / combined_total:
+            if self._rng.random() * (self_remaining + other_remaining) < self_remaining:
                 # Sample from self
-                if self._reservoir:
-                    idx = self._rng.randint(0, len(self._reservoir) - 1)
-                    new_reservoir.append(self._reservoir[idx])
+                idx = self._rng.randint(0, len(self_pool) - 1)
+                new_reservoir.append(self_pool.pop(idx))
+                self_remaining -= 1
             else:
                 # Sample from other
-                if other._reservoir:
-                    idx = self._rng.randint(0, len(other._reservoir) - 1)
-                    new_reservoir.append(other._reservoir[idx])
+                idx = self._rng.randint(0, len(other_pool) - 1)
+                new_reservoir.append(other_pool.pop(idx))
+                other_remaining -= 1
 
         self._reservoir = new_reservoir[: self._size]
         self._total_count = combined_total
